@@ -22,7 +22,7 @@ EXPLANATION = (
     "`(now-_last_received).secs() > hb_interval20pc`; R22.2 every store to _hb_interval20pc is h + h/5 of the value stored to "
     "_hb_interval; R22.3 handle_test_request sends generate_heartbeat(TestReqID read from the inbound message), handle_heartbeat "
     "moves test_request_sent -> continuous; R22.4 send_process refreshes _last_sent on every path after a successful "
-    "Connection::send and FIXReader::read refreshes _last_received before `return true`. NOT decided: behaviour over timelines.")
+    "Connection::send and FIXReader::read refreshes _last_received before `return true`. R22.5 the timer callbacks stop the session only with stop(false), and stop(false) cannot reach _timer.clear() (the timer thread holds that lock). NOT decided: behaviour over timelines.")
 
 S = 'FIX8::Session::'
 
@@ -304,4 +304,43 @@ def _rest(ctx, prog, f, S, st):
     ctx.need(truerets, 'no `return true` in FIXReader::read')
     ok = bool(upd) and all(any(rcfg.dominates(u, v) for u in upd) for v in truerets)
     ctx.check(ok, 'R22.4', 'FIX8::FIXReader::read#last_received', rd.loc, 'every `return true` of FIXReader::read is dominated by update_received()')
+    # ---------------- R22.5 the supervision runs on the timer thread, inside Timer::operator() and under the timer's (non-recursive) spin lock:
+    # the session can only end itself from there if that path never takes the same lock again.  Timer::clear() takes it, so
+    #   (a) every stop the supervision issues is stop(false), and
+    #   (b) under clearTimer == false no path of Session::stop reaches _timer.clear().
+    stopf = prog.fn1(S + 'stop')
+    ctx.saw(stopf)
+    scfg = stopf.cfg
+    clears = [c for c in stopf.calls() if c.callee is not None and c.callee.get('n') == 'clear' and c.obj is not None and q.refers_to_member(c.obj, S + '_timer')]
+    ctx.need(len(clears) >= 1, 'Session::stop: _timer.clear() not found')
+    ctp = stopf.param_ids[0]
+
+    def no_clear_timer(v, w, lab):
+        if lab is None or not isinstance(lab[1], bool):
+            return True
+        cn = scfg.cond_node(lab[0])
+        if cn is None:
+            return True
+        a, pol = q.polar(cn, lab[1])
+        if q.refers_to_decl(a, ctp) and a.strip(casts=True).k == 'DeclRefExpr':
+            return pol is False
+        return True
+    reach_nc = scfg.reach_from(scfg.entry, edge_ok=no_clear_timer)
+    hit = [c for c in clears if scfg.vertex_of(c) in reach_nc]
+    ctx.check(not hit, 'R22.5', S + 'stop#no-clear-when-asked-not-to', (hit[0].loc if hit else stopf.loc),
+              'with clearTimer == false no path of stop() reaches _timer.clear()',
+              'stop(false) can still reach _timer.clear(): heartbeat_service calls stop(false) from inside Timer::operator(), which holds the timer spin lock that clear() '
+              'takes — the timer thread deadlocks on its own lock, the Logout goes out but the session never terminates')
+    n_sup = 0
+    for svc in ('heartbeat_service', 'activation_service'):
+        for g in prog.fns(S + svc):
+            ctx.saw(g)
+            for c in g.calls_to(S + 'stop'):
+                n_sup += 1
+                a0 = c.args[0] if c.args else None
+                okf = a0 is not None and a0.k != 'CXXDefaultArgExpr' and a0.strip(casts=True).value == 0
+                ctx.check(okf, 'R22.5', S + svc + '#stop-without-clearing@%d' % c.line, c.loc, 'the timer callback stops the session with stop(false)',
+                          'the timer callback calls `%s`: stop() with clearTimer true clears the timer, whose lock the calling timer thread already holds (self-deadlock)' % c.text())
+    ctx.need(n_sup >= 1, 'no stop() call found in the timer callbacks')
+    ctx.floor('R22.5', 2)
     ctx.floor('R22.1', 70)
